@@ -4,7 +4,7 @@ import json
 import common
 
 THEOREMS = ["c02_fatal_origin", "c02_framework", "c02_plain", "c02_walker_safe", "c02_walker_unchecked_refuted",
-            "c02_gentime_safe", "c02_gentime_guard_needed", "c02_bodies_total", "c02_gentime_range"]
+            "c02_gentime_safe", "c02_gentime_guard_needed", "c02_bodies_total", "c02_gentime_range", "c02_dn_printable"]
 
 BODIES_HEADER = """From ZL Require Import Base.Bytes Base.Corr Kernels.Bodies.
 From Coq Require Import ZArith.
@@ -22,6 +22,7 @@ Definition chk_authority (c : bool * bool * bytes * option bytes) : bool :=
   match c with (ok, opq, u, o) => ob_eq (get_authority ok opq u) o end.
 Fixpoint lz_eqb (a b : list Z) : bool :=
   match a, b with [] , [] => true | x :: a', y :: b' => (x =? y) && lz_eqb a' b' | _, _ => false end.
+Definition chk_dnprint (c : list bytes * Z) : bool := oz (dn_not_printable (fst c)) =? snd c.
 Definition chk_bmp (c : bytes * option (option (list Z))) : bool :=
   match parse_bmp (fst c), snd c with
   | OOR, None => true
@@ -38,6 +39,7 @@ BODY_STREAMS = [
     ("host", "chk_host", "Bodies.get_host vs util.GetHost"),
     ("authority", "chk_authority", "Bodies.get_authority vs util.GetAuthority (net/url's verdict as input)"),
     ("bmp", "chk_bmp", "Bodies.parse_bmp vs util.ParseBMPString (code units)"),
+    ("dnprint", "chk_dnprint", "Bodies.dn_not_printable vs e_subject_dn_not_printable_characters on the attribute values of zoo and crafted subjects"),
 ]
 
 
